@@ -8,6 +8,7 @@ import (
 	"time"
 
 	"github.com/cloudwego/hertz/pkg/common/config"
+	"github.com/cloudwego/hertz/pkg/network/standard"
 	"github.com/cloudwego/hertz/pkg/route"
 
 	"github.com/cloudwego/hertz/pkg/app/server"
@@ -74,6 +75,9 @@ func main() {
 }
 
 func work(w *mon.W) {
+	// poison-on-free sanitiser (hook H3): a buffer block that is recycled while a request
+	// still refers to it shows up as 0xDD bytes in the handler views
+	standard.VerifPoisonEnabled = true
 	engines := map[cfg]*engine{}
 	get := func(c cfg) *engine {
 		if e, ok := engines[c]; ok {
